@@ -45,7 +45,7 @@ class TlcResult:
                 "coverage": {k: list(v) for k, v in self.coverage.items()}, "wall_s": round(self.wall, 2)}
 
 
-_cov_re = re.compile(r"^<(\w+) line \d+, col \d+ to line \d+, col \d+ of module (\w+)>: (\d+):(\d+)")
+_cov_re = re.compile(r"^<(\w+) line \d+, col \d+ to line \d+, col \d+ of module (\w+)(?: \([\d ]+\))?>: (\d+):(\d+)")
 _stat_re = re.compile(r"^(\d+) states generated, (\d+) distinct states found")
 _depth_re = re.compile(r"The depth of the complete state graph search is (\d+)")
 _inv_re = re.compile(r"Invariant (\w+) is violated")
@@ -128,7 +128,7 @@ class Ctx:
         w = workers or min(NCPU, 16)
         cmd = ["java"] + jopts + ["-cp", TLA_CP, "tlc2.TLC", "-workers", str(w),
                                   "-metadir", str(meta), "-cleanup", "-noGenerateSpecTE"]
-        if coverage and not simulate:
+        if coverage is True and not simulate:
             cmd += ["-coverage", "1"]
         if simulate:
             cmd += ["-simulate", "num=%d" % simulate, "-seed", str(self.seed)]
@@ -173,6 +173,8 @@ class Ctx:
                 m = _prop_re.search(line)
                 if m and not res.violated:
                     res.violated = m.group(2) or m.group(1)
+                if "Postcondition" in line and "is false" in line and not res.violated:
+                    res.violated = "POSTCONDITION"
                 if line.startswith("Error:") or "Exception" in line:
                     errs.append(line.strip())
         res.error_text = "\n".join(errs[:10])
@@ -181,6 +183,29 @@ class Ctx:
         if p.returncode != 0 and not res.violated:
             tail = subprocess.run(["tail", "-n", "30", str(out)], stdout=subprocess.PIPE, text=True).stdout
             raise ToolFailure("TLC failed (rc=%s) on %s/%s:\n%s" % (p.returncode, tla, cfg, tail))
+        if coverage == "separate" and not simulate and not res.violated:
+            # -coverage makes invariants with deep recursion very slow (measured 4 s -> 4 min), so the
+            # per-action counts come from a second pass over the same transition relation without
+            # the invariants.
+            stripped = self.work / ((out_name or cfg) + "_cov.cfg")
+            keep = []
+            skipping = False
+            for line in open(SPEC / (cfg + ".cfg")):
+                w0 = line.split()[0] if line.split() else ""
+                if w0 in ("INVARIANT", "INVARIANTS", "PROPERTY", "PROPERTIES", "POSTCONDITION"):
+                    skipping = True
+                    continue
+                if skipping and w0 in ("SPECIFICATION", "CONSTANT", "CONSTANTS", "CONSTRAINT", "CONSTRAINTS",
+                                       "CHECK_DEADLOCK", "VIEW", "INIT", "NEXT", "SYMMETRY", "ACTION_CONSTRAINT"):
+                    skipping = False
+                if not skipping:
+                    keep.append(line)
+            stripped.write_text("".join(keep))
+            cov = self.tlc(tla, str(stripped)[:-4], workers=workers, env=env, timeout=timeout, coverage=True,
+                           xss=xss, xmx=xmx, out_name=(out_name or cfg) + "_cov")
+            res.coverage = cov.coverage
+            if cov.distinct != res.distinct:
+                raise ToolFailure("coverage pass explored %d states, main pass %d" % (cov.distinct, res.distinct))
         if coverage and not simulate and required_actions:
             for a in required_actions:
                 if a in allow_zero:
@@ -188,6 +213,27 @@ class Ctx:
                 if res.coverage.get(a, (0, 0))[1] == 0:
                     raise ToolFailure("vacuous run: action %s of %s/%s was never taken" % (a, tla, cfg))
         return res
+
+    def trace_validate(self, tla, cfg, trace_path, timeout=1800, xmx="4g", env=None, out_name=None):
+        """impl -> spec: validate an ndjson trace recorded from the real code against a trace spec.
+        Returns dict(matched, total, violated, states, out). The trace spec prints
+        <<"TRACE", "matched", n, "of", m>> from its POSTCONDITION."""
+        e = {"VERIF_TRACE": str(trace_path)}
+        if env:
+            e.update(env)
+        res = self.tlc(tla, cfg, workers=1, env=e, timeout=timeout, coverage=False, xss="1g", xmx=xmx, deque=True,
+                       out_name=out_name or cfg, expect_violation=True)
+        matched = total = None
+        with open(res.out_path, "r", errors="replace") as f:
+            for line in f:
+                m = re.match(r'<<"TRACE", "matched", (\d+), "of", (\d+)>>', line)
+                if m:
+                    matched, total = int(m.group(1)), int(m.group(2))
+        if matched is None and not res.violated:
+            tail = subprocess.run(["tail", "-n", "25", str(res.out_path)], stdout=subprocess.PIPE, text=True).stdout
+            raise ToolFailure("trace validation of %s produced no verdict:\n%s" % (trace_path, tail))
+        return {"matched": matched, "total": total, "violated": res.violated, "states": res.distinct,
+                "transitions": res.generated, "out": res.out_path, "wall_s": round(res.wall, 2)}
 
     # ---------------------------------------------------------------- verdict
     def mismatch(self, fp, detail):
